@@ -428,7 +428,7 @@ Proof.
       split; [done|]. apply Forall2_fmap_r, Forall_Forall2_diag.
       rewrite Forall_forall in Hroots |- *. intros v Hv.
       destruct (ref_umap 0 b umap v HR (Hroots v Hv)) as (p&Hp&Hvp&_&HDp); [lia|].
-      rewrite Hp. cbn [default]. split_and!; [done|by exists p| |by apply Hdenv].
+      cbv beta. rewrite Hp. cbn [default]. split_and!; [done|by exists p| |by apply Hdenv].
       intros a. by rewrite HDb.
 Qed.
 
